@@ -315,7 +315,7 @@ class Run:
     def run_query(self, h, cfg, extra_defs=()):
         qn = self.qname(h, cfg)
         mem = cfg.get('_mem_gb', h.get('mem_gb', 4 if self.tier == 'quick' else 12))
-        tmo = cfg.get('_timeout', h.get('timeout', 300 if self.tier == 'quick' else 1800))
+        tmo = cfg.get('_timeout', h.get('timeout', 600 if self.tier == 'quick' else 1800))
         cmd, backend = self.cbmc_cmd(h, cfg, extra_defs)
         self.acquire_mem(mem)
         try:
@@ -331,7 +331,7 @@ class Run:
 
     def trace_inputs(self, h, cfg, prop, extra_defs=()):
         mem = cfg.get('_mem_gb', h.get('mem_gb', 4 if self.tier == 'quick' else 12))
-        tmo = cfg.get('_timeout', h.get('timeout', 300 if self.tier == 'quick' else 1800))
+        tmo = cfg.get('_timeout', h.get('timeout', 600 if self.tier == 'quick' else 1800))
         cmd, backend = self.cbmc_cmd(h, cfg, extra_defs, more=['--trace', '--property', prop])
         self.acquire_mem(mem)
         try:
